@@ -31,6 +31,7 @@ type PropSpecFile struct {
 	SweepInline      int      `json:"sweep_inline"`  // inline depth for swept functions
 	SweepBudget      int      `json:"sweep_budget"`  // inlined-instruction budget for swept functions
 	SweepQuickPrefix []string `json:"sweep_quick_prefixes"` // quick tier: only functions with these key prefixes (empty = all)
+	SweepSkipLabels  []string `json:"sweep_skip_pre_labels"` // swept functions: call-site preconditions with these clause labels belong to other properties
 }
 
 type KnownFinding struct {
@@ -43,6 +44,7 @@ type KnownFinding struct {
 }
 
 type funcResult struct {
+	sweep  bool
 	key    string
 	vc     *VC
 	obs    []*Oblig
@@ -219,7 +221,7 @@ func checkProperty(dir string, P *Program, C *Contracts, id, tier string, verbos
 			vc := NewVC(P, C, fn, opts)
 			vc.Generate()
 			<-gensem
-			fr := &funcResult{key: j.key, vc: vc, genS: time.Since(g0).Seconds()}
+			fr := &funcResult{key: j.key, vc: vc, genS: time.Since(g0).Seconds(), sweep: j.sweep}
 			d.Discharge(vc)
 			fr.obs = vc.sc.Obligs()
 			fr.errors = vc.Errors
@@ -302,6 +304,28 @@ func checkProperty(dir string, P *Program, C *Contracts, id, tier string, verbos
 		for _, ob := range r.obs {
 			if len(kindOK) > 0 && !kindOK[ob.Kind] && ob.Kind != "canary" {
 				continue
+			}
+			if r.sweep {
+				// swept (not listed) functions contribute run-time safety and the response protocol;
+				// functional clauses of their contracts are decided by the properties that list them
+				switch ob.Kind {
+				case "post", "frame", "lemma", "inv-init":
+					continue
+				case "inv-preserve":
+					if !strings.Contains(ob.Name, ":auto") {
+						continue
+					}
+				case "pre":
+					skip := false
+					for _, l := range spec.SweepSkipLabels {
+						if strings.Contains(ob.Name, "."+l) {
+							skip = true
+						}
+					}
+					if skip {
+						continue
+					}
+				}
 			}
 			if matchAny(ob.Name, spec.IgnoreObligation) {
 				notClaimed = append(notClaimed, ob.Name)
